@@ -2855,3 +2855,144 @@ func checkCommitWorkerAlwaysReports(c *Ctx, rule string) {
 	c.check(nExit > 0 && len(bad) == 0, rule, f.ID, pos, "every exit of the worker follows a send of the file's entry or of an error",
 		"commitFileUpload can return without having sent the file's entry or an error to the collector: a file that is visible in the mount is left out of the committed bundle and the commit still reports success")
 }
+
+// checkWriterFreshPerPut (C01, C02; pooled): every Put writes through a writer built for it: each return of
+// defaultFs.writer is a newWriter(…) call. A writer kept from an earlier Put carries that Put's state (a staging offset
+// left by a failed trailing flush, collected errors, counters) into the next object.
+func checkWriterFreshPerPut(c *Ctx, rule string) {
+	p := c.P
+	f := p.Func("pkg/cafs.defaultFs.writer")
+	info := f.Info()
+	n, bad := 0, ""
+	var badPos token.Pos
+	ast.Inspect(f.Decl.Body, func(nd ast.Node) bool {
+		if _, isLit := nd.(*ast.FuncLit); isLit {
+			return false
+		}
+		r, ok := nd.(*ast.ReturnStmt)
+		if !ok || len(r.Results) != 1 {
+			return true
+		}
+		n++
+		call, isCall := ast.Unparen(r.Results[0]).(*ast.CallExpr)
+		if (!isCall || calleeID(info, call) != "pkg/cafs.newWriter") && bad == "" {
+			bad, badPos = exprString(r.Results[0]), r.Pos()
+		}
+		return true
+	})
+	pos := p.Pos(f.Decl.Pos())
+	if bad != "" {
+		pos = p.Pos(badPos)
+	}
+	c.check(n > 0 && bad == "", rule, f.ID, pos, "every Put gets a writer built by newWriter",
+		"defaultFs.writer can return `"+bad+"`, not a writer built for this Put: state left in a reused writer (a staging offset after a failed trailing flush, collected errors, leaf counters) goes into the next object, whose key and bytes are then wrong with no error")
+}
+
+// checkLeafPoolPerFs (C01, pooled): the pool of leaf buffers ReadAt draws from is built for the file system it serves,
+// from that file system's leaf size: every value assigned to defaultFs.leafPool is newLeafFreelist(<its leafSize>, …).
+// A pool shared between file systems hands a reader buffers sized for another leaf size (a leaf is then loaded
+// truncated).
+func checkLeafPoolPerFs(c *Ctx, rule string) {
+	p := c.P
+	n := 0
+	for _, f := range p.FuncsIn("pkg/cafs") {
+		if f.Decl.Body == nil {
+			continue
+		}
+		info := f.Info()
+		k := 0
+		ast.Inspect(f.Decl.Body, func(nd ast.Node) bool {
+			as, ok := nd.(*ast.AssignStmt)
+			if !ok || len(as.Lhs) != len(as.Rhs) {
+				return true
+			}
+			for i, l := range as.Lhs {
+				sel, ok := ast.Unparen(l).(*ast.SelectorExpr)
+				if !ok || sel.Sel.Name != "leafPool" {
+					continue
+				}
+				if s := info.Selections[sel]; s == nil || namedTypeID(s.Recv()) != "pkg/cafs.defaultFs" {
+					continue
+				}
+				k++
+				n++
+				okPool := false
+				if call, ok := ast.Unparen(as.Rhs[i]).(*ast.CallExpr); ok && calleeID(info, call) == "pkg/cafs.newLeafFreelist" && len(call.Args) >= 1 {
+					okPool = strings.HasSuffix(describeExpr(f, call.Args[0], 0), ".leafSize")
+				}
+				c.check(okPool, rule, f.ID+":leafPool#"+itoa(k), p.Pos(as.Pos()), "the leaf-buffer pool is built for this file system's leaf size",
+					f.ID+" sets the leaf-buffer pool to `"+exprString(as.Rhs[i])+"`, not a pool built for this file system's own leaf size: random-access reads can be served buffers of another size, into which a leaf does not fit")
+			}
+			return true
+		})
+	}
+	if n == 0 && c.sharedReach == nil {
+		c.shape3(rule, "pkg/cafs.New", "no assignment of defaultFs.leafPool found")
+	}
+}
+
+// checkPopulateTxnsOnce (C17, pooled): the read-only mount is populated inside one set of radix transactions, opened
+// and committed by populateFS itself: newFSTxns and commitToFS have no other caller. A second set opened on the way is
+// lost (or rolls the first one back) when populateFS commits the handle it holds.
+func checkPopulateTxnsOnce(c *Ctx, rule string) {
+	p := c.P
+	for _, id := range []string{"pkg/fuse.newFSTxns", "pkg/fuse.populateFSTxns.commitToFS"} {
+		if p.FuncOpt(id) == nil {
+			c.shape3(rule, "pkg/fuse.readOnlyFsInternal.populateFS", id+" no longer exists")
+			continue
+		}
+		var others []string
+		n := 0
+		for _, cs := range callersOf(p, id) {
+			n++
+			if cs.Fn.ID != "pkg/fuse.readOnlyFsInternal.populateFS" {
+				others = append(others, cs.Fn.ID)
+			}
+		}
+		sort.Strings(others)
+		c.check(n > 0 && len(others) == 0, rule, "pkg/fuse.readOnlyFsInternal.populateFS:"+strings.TrimPrefix(id, "pkg/fuse."), p.Pos(p.FuncOpt(id).Decl.Pos()),
+			"called by populateFS only",
+			strings.TrimPrefix(id, "pkg/fuse.")+" is also called from "+strings.Join(others, ", ")+": the mount's trees are populated through more than one set of transactions while populateFS commits the one it opened — entries inserted through another set are listed by ReadDir (a plain map) but no longer found by lookups, attributes and reads")
+	}
+}
+
+// checkSingleFileNameAsGiven (C04, pooled): a single-file download looks its file up among the bundle's entries by the
+// name the caller gave, compared with entry names as they are stored: unpackDataFile does not rewrite that parameter
+// (entries uploaded from a key list keep the caller's spelling, e.g. "./a/b": a normalised request no longer matches
+// the very name the bundle lists).
+func checkSingleFileNameAsGiven(c *Ctx, rule string) {
+	p := c.P
+	f := p.Func("pkg/core.unpackDataFile")
+	info := f.Info()
+	sig := f.Obj.Type().(*types.Signature)
+	var names []*types.Var
+	for i := 0; i < sig.Params().Len(); i++ {
+		if bt, ok := sig.Params().At(i).Type().Underlying().(*types.Basic); ok && bt.Kind() == types.String {
+			names = append(names, sig.Params().At(i))
+		}
+	}
+	if len(names) == 0 {
+		c.shape3(rule, f.ID, "unpackDataFile no longer takes the requested name as a string parameter")
+		return
+	}
+	for _, v := range names {
+		bad := ""
+		var badPos token.Pos
+		for _, d := range defsOfVarWithIndex(f, v) {
+			if bad == "" {
+				bad = "reassigned"
+				if d.rhs != nil {
+					bad = exprString(d.rhs)
+				}
+				badPos = d.start
+			}
+		}
+		_ = info
+		pos := p.Pos(f.Decl.Pos())
+		if bad != "" {
+			pos = p.Pos(badPos)
+		}
+		c.check(bad == "", rule, f.ID+":"+v.Name(), pos, "the requested name is used as given",
+			"unpackDataFile rewrites the requested name (`"+v.Name()+" = "+bad+"`) before looking it up among the bundle's entries, whose names are compared as stored: a file listed by the bundle under a spelling the rewrite changes can no longer be downloaded on its own")
+	}
+}
